@@ -1,8 +1,10 @@
 """C17 implementation driver: renders an image through the real UrwidImage widget (box or
 flow size) and asks the real UrwidImageCanvas for sub-rectangles, directly
 (`canvas.content(trim_left, trim_top, cols, rows)`) or through urwid's own CompositeCanvas
-trimming.  Returns the canvas's lines, the untrimmed content and every requested trim's rows
-(as indices into a table of distinct rows)."""
+trimming.  A case is a HISTORY: several renders of one widget (or of widgets sharing one image
+object) at different sizes, with content() requests on earlier canvases in between and after.
+Returns, per canvas, the lines / image size / untrimmed content captured when it was built and
+every later request's rows (as indices into a table of distinct rows)."""
 import implenv
 from implenv import tests
 import impl_render
@@ -57,7 +59,55 @@ def via_composite(canv, W, H, tl, tt, cols, rows):
     return list(cc.content())
 
 
+def pick_trims(case, W, H, w, h, salt):
+    mw, mh = case.get("max_exh", (8, 6))
+    if W <= mw and H <= mh:
+        return all_trims(W, H)
+    # too many: a seeded sample, boundary-biased
+    import random
+    rng = random.Random(case.get("rseed", 0) * 1000 + salt)
+    xs = sorted({0, 1, (W - w) // 2, (W - w) // 2 + 1, W - w, W - w - 1, W - 1, W // 2} & set(range(W)))
+    ys = sorted({0, 1, (H - h) // 2, (H - h) // 2 + 1, H - h, H - h - 1, H - 1, H // 2} & set(range(H)))
+    trims = [[0, 0, None, None], [0, 0, W, H]]
+    for _ in range(case.get("n_random", 60)):
+        tl = rng.choice(xs) if rng.random() < 0.5 else rng.randrange(W)
+        tt = rng.choice(ys) if rng.random() < 0.5 else rng.randrange(H)
+        cols = rng.choice([1, W - tl, rng.randint(1, W - tl), rng.randint(1, W - tl)])
+        rows = rng.choice([1, H - tt, rng.randint(1, H - tt), rng.randint(1, H - tt)])
+        trims.append([tl, tt, cols, rows])
+    return trims
+
+
+class Rec:
+    """One canvas: everything captured WHEN IT WAS BUILT, then the observations made later."""
+
+    def __init__(self, canv, widx, req, image, step):
+        self.canv = canv
+        self.tbl, self.index = [], {}
+        W, H = canv.cols(), canv.rows()
+        self.d = {"widget": widx, "req": list(req), "built_at": step, "size": [W, H],
+                  "image_size": list(image._size), "lines": [ln.decode() for ln in canv._ti_lines],
+                  "obs": [], "obs_step": [], "full_later_same": True}
+        self.d["fd"], self.d["full"] = self.enc(canv.content())
+
+    def enc(self, rows_):
+        """(disguise pairs — the same on every row, else -1 —, table indices)"""
+        out, ds = [], set()
+        for row in rows_:
+            s, n = split_disguise(row_bytes(row))
+            k = self.index.get(s)
+            if k is None:
+                k = self.index[s] = len(self.tbl)
+                self.tbl.append(s)
+            out.append(k)
+            ds.add(n)
+        return (ds.pop() if len(ds) == 1 else 0 if not ds else -1), out
+
+
 def run_case(case):
+    """A history: one image, one or more UrwidImage widgets sharing it, a sequence of
+    ["render", widget, size] and ["trim", canvas (ordinal of its render step), trims] steps.
+    Canvases stay alive and are asked for content after later renders."""
     style = case["style"]
     cls = {"block": BlockImage, "kitty": KittyImage, "iterm2": ITerm2Image}[style]
     tests.set_cell_size(tuple(case.get("cell_size", (10, 20))))
@@ -71,71 +121,58 @@ def run_case(case):
     ITerm2Image._TERM = term
     saved_term = tests.get_terminal_name_version()
     tests.set_terminal_name_version(term)
-    cstate, wstate = case.get("disguise", [0, 0])
-    UrwidImageCanvas._ti_disguise_state = cstate
+    UrwidImageCanvas._ti_disguise_state = case.get("cstate", 0)
     try:
         img = impl_render.make_image(case["img"])
         image = cls(img)
-        widget = UrwidImage(image, case.get("spec", ""), upscale=bool(case.get("upscale")))
-        widget._ti_disguise_state = wstate
-        size = tuple(case["size"])
-        res = {"text": isinstance(image, TextImage)}
-        if len(size) == 1:
-            res["rows_method"] = widget.rows(size)
-        canv = widget.render(size)
-        if not isinstance(canv, UrwidImageCanvas):
-            return {"error": f"render returned {type(canv).__name__}"}
-        if len(size) == 1:
-            # asked again after rendering (the answer must not depend on the order)
-            res["rows_method_after"] = widget.rows(size)
-        W, H = canv.cols(), canv.rows()
-        res["size"] = [W, H]
-        res["image_size"] = list(image._size)
-        res["lines"] = [ln.decode() for ln in canv._ti_lines]
-        tbl, index = [], {}
-
-        def enc(rows_):
-            """(disguise pairs — the same on every row, else -1 —, table indices)"""
-            out, ds = [], set()
-            for row in rows_:
-                s, n = split_disguise(row_bytes(row))
-                k = index.get(s)
-                if k is None:
-                    k = index[s] = len(tbl)
-                    tbl.append(s)
-                out.append(k)
-                ds.add(n)
-            return (ds.pop() if len(ds) == 1 else 0 if not ds else -1), out
-
-        res["fd"], res["full"] = enc(canv.content())
-        trims = case["trims"]
-        if trims == "all":
-            mw, mh = case.get("max_exh", (8, 6))
-            if W <= mw and H <= mh:
-                trims = all_trims(W, H)
-            else:  # too many: a seeded sample, boundary-biased
-                import random
-                rng = random.Random(case.get("rseed", 0))
-                w, h = image._size
-                xs = sorted({0, 1, (W - w) // 2, (W - w) // 2 + 1, W - w, W - w - 1, W - 1, W // 2} & set(range(W)))
-                ys = sorted({0, 1, (H - h) // 2, (H - h) // 2 + 1, H - h, H - h - 1, H - 1, H // 2} & set(range(H)))
-                trims = [[0, 0, None, None], [0, 0, W, H]]
-                for _ in range(case.get("n_random", 60)):
-                    tl = rng.choice(xs) if rng.random() < 0.5 else rng.randrange(W)
-                    tt = rng.choice(ys) if rng.random() < 0.5 else rng.randrange(H)
-                    cols = rng.choice([1, W - tl, rng.randint(1, W - tl), rng.randint(1, W - tl)])
-                    rows = rng.choice([1, H - tt, rng.randint(1, H - tt), rng.randint(1, H - tt)])
-                    trims.append([tl, tt, cols, rows])
-        obs = []
-        for tl, tt, cols, rows in trims:
-            if case.get("via") == "composite" and cols is not None and rows is not None:
-                got = via_composite(canv, W, H, tl, tt, cols, rows)
+        widgets = []
+        for w in case["widgets"]:
+            widget = UrwidImage(image, w.get("spec", ""), upscale=bool(w.get("upscale")))
+            widget._ti_disguise_state = w.get("wstate", 0)
+            widgets.append(widget)
+        recs, alias = [], []
+        for si, step in enumerate(case["steps"]):
+            if step[0] == "render":
+                _, widx, size = step
+                widget, size = widgets[widx], tuple(size)
+                if not case.get("cache"):
+                    urwid.CanvasCache.clear()
+                rm = widget.rows(size) if len(size) == 1 else None
+                canv = widget.render(size)
+                if not isinstance(canv, UrwidImageCanvas):
+                    return {"error": f"render returned {type(canv).__name__}"}
+                known = [k for k, r in enumerate(recs) if r.canv is canv]
+                if known:  # urwid's canvas cache handed out a canvas built earlier
+                    alias.append(known[0])
+                    continue
+                rec = Rec(canv, widx, size, image, si)
+                rec.d["text"] = isinstance(image, TextImage)
+                if rm is not None:
+                    rec.d["rows_method"] = rm
+                    # asked again after rendering (the answer must not depend on the order)
+                    rec.d["rows_method_after"] = widget.rows(size)
+                alias.append(len(recs))
+                recs.append(rec)
             else:
-                got = list(canv.content(tl, tt, cols, rows))
-            obs.append([tl, tt, cols, rows, *enc(got)])
-        res["tbl"] = tbl
-        res["obs"] = obs
-        return res
+                _, cidx, trims = step
+                rec = recs[alias[cidx]]
+                canv = rec.canv
+                W, H = rec.d["size"]
+                w, h = rec.d["image_size"]
+                if trims == "all":
+                    trims = pick_trims(case, W, H, w, h, si)
+                if rec.enc(canv.content()) != (rec.d["fd"], rec.d["full"]):
+                    rec.d["full_later_same"] = False
+                for tl, tt, cols, rows in trims:
+                    if case.get("via") == "composite" and cols is not None and rows is not None:
+                        got = via_composite(canv, W, H, tl, tt, cols, rows)
+                    else:
+                        got = list(canv.content(tl, tt, cols, rows))
+                    rec.d["obs"].append([tl, tt, cols, rows, *rec.enc(got)])
+                    rec.d["obs_step"].append(si)
+        for rec in recs:
+            rec.d["tbl"] = rec.tbl
+        return {"canvases": [r.d for r in recs], "alias": alias}
     except Exception as e:
         import traceback
         return {"error": f"{type(e).__name__}: {e} {traceback.format_exc()[-400:]}"}
@@ -143,6 +180,7 @@ def run_case(case):
         ITerm2Image._TERM = ""
         UrwidImageCanvas._ti_disguise_state = 0
         tests.set_terminal_name_version(*saved_term)
+        urwid.CanvasCache.clear()
 
 
 if __name__ == "__main__":
